@@ -104,6 +104,8 @@ def explore(ctx):
         # the model's verdict is proved equal to the property's reading (C08_create_iff); double check here
         if model_create_ok != inr:
             failures.append({"class": None, "witness": False, "text": "model disagrees with lower<=v<=upper (theorem C08_create_iff contradicted?)", "case": case})
+        if r.get("r") == "ok" and r.get("create") == "ok" and r.get("verify_swapped") != "err":
+            failures.append({"class": None, "witness": True, "text": f"a presentation carrying the range proof of ANOTHER presentation (other commitments) is accepted: the bulletproof is not examined (v={v} lower={lo} upper={hi} suite={op['suite']}: {r.get('verify_swapped')})", "case": case})
         if outcome != expect:
             # the disagreeing case is itself the witness: in-range value refused / not accepted, or out-of-range value presented
             what = ("in-range value: honest presentation not created/accepted" if inr
@@ -134,7 +136,7 @@ def explore(ctx):
     return {
         "evaluations": len(cases) + n_oc,
         "distinct_nontrivial": len(nontrivial),
-        "rule": "cases = (v, lower, upper) triples: product of the boundary lattice {MIN,MIN+1,-2^32,-2,-1,0,1,2,2^32,MAX-1,MAX} for both bounds in all four presence patterns with v at bound-1, bound, bound+1 (plus lattice points), and random triples in/out of range; each runs Issuer::sign_credential, Presentation::create, verify and verify after a BARE round trip, alternating BBS/PS, varying claim position and disclosure; distinct by triple; every case is non-trivial (reaches create on both sides)",
+        "rule": "cases = (v, lower, upper) triples: product of the boundary lattice {MIN,MIN+1,-2^32,-2,-1,0,1,2,2^32,MAX-1,MAX} for both bounds in all four presence patterns with v at bound-1, bound, bound+1 (plus lattice points), and random triples in/out of range; each runs Issuer::sign_credential, Presentation::create, verify, verify after a BARE round trip and verify with the range proof of a second presentation swapped in (must fail), alternating BBS/PS, varying claim position and disclosure; distinct by triple; every case is non-trivial (reaches create on both sides)",
         "samples": samples,
         "histograms": hist,
         "failures": failures,
